@@ -99,6 +99,16 @@ CLAIMED = {
             "CONNECT advertises the receive-buffer length and the broker limit is written only from the CONNACK; the receive "
             "window is sliced only within the buffer. Sizes around the limit are not enumerated.",
             "DESIGN.md §4 C14"),
+    "C09": ("table extraction from MIR (match arms, generic arguments, aggregates) compared cell by cell with MQTT 5 and "
+            "between sibling tables; value-set folding of flag bytes with control-dependence guards; interval abstract "
+            "interpretation of Varint::encoded_len; field-order extraction of every serializer",
+            "Static analysis, structural clauses only: 27 properties x (identifier, written wire type, read wire type, size "
+            "formula) vs MQTT 5 Table 2-4 and vs each other; Properties::size vs what serialize emits per representation; "
+            "encoded_len vs the varint boundaries for every bit-length class; CONNECT flags, subscription options and "
+            "PUBLISH flags bit by bit with their guards; CONNECT field wiring and the field order of all packet "
+            "serializers; checked u16 length prefixes. This covers all property kinds x packets without enumerating "
+            "values. Byte-level round trips and user payload closures are not decided.",
+            "DESIGN.md §4 C09"),
 }
 
 NOT_APPLICABLE = {
